@@ -70,6 +70,11 @@ func (vs *ValidatorStore) CheckMaliciousValidators(es *evidence.EvidenceStore, g
 			continue
 		}
 		if votes < evidenceOptions.MinVotesRequired {
+			// a validator that is already frozen keeps its record: the missed-votes scan must not replace
+			// a guilty verdict (and its release time) by a freeze that can be released at once
+			if es.IsFrozenValidator(baddr) {
+				continue
+			}
 			key := append(vs.prefix, baddr...)
 			data := vs.store.GetVersioned(vs.lastHeight-1, key)
 			if len(data) == 0 {
